@@ -51,7 +51,14 @@ def check_snapshot(ctx, b, tr, target_q, variables, units, case, judge_values=Tr
     target = B.mkq(target_q)
     kw = dict(units)
     try:
-        df = b.pt.snapshot(target_time=target, variables=list(variables) if variables is not None else None, print_data=False, **kw)
+        ORDER = ('angular_position_unit', 'angular_speed_unit', 'angular_acceleration_unit', 'torque_unit', 'driving_torque_unit', 'load_torque_unit',
+                 'force_unit', 'stress_unit', 'current_unit')          # the documented order of snapshot's unit parameters
+        if all(k_ in kw for k_ in ORDER) and len(str(target_q['v'])) % 3 == 0:
+            # everything passed positionally, in the documented order
+            ctx.count('snapshots_called_positionally')
+            df = b.pt.snapshot(target, list(variables) if variables is not None else None, *[kw[k_] for k_ in ORDER], False)
+        else:
+            df = b.pt.snapshot(target_time=target, variables=list(variables) if variables is not None else None, print_data=False, **kw)
     except Exception as ex:
         ctx.violation('snapshot-raised', {'target_time': target_q, 'variables': variables, 'units': units, 'exception': type(ex).__name__ + ': ' + str(ex)[:200]}, case)
         return False
